@@ -50,6 +50,17 @@ def c12_concurrent(rep, tier):
                           {"engine": "conc", "module": "checks_conc_extra", "scenario": sc, "schedule": h["schedule"], "history": h["ev"]})
     if hs:
         rep.sample({"handover_scenario": hs[0][0]["threads"], "history": hs[0][1]["ev"][:14]})
+    # the deterministic witness of the open finding F16 (a send in flight while a global field is set) runs first
+    for f in known_findings():
+        if f["id"] == "F16" and f["status"] == "open" and isinstance(f.get("witness"), dict) and f["witness"].get("schedule"):
+            wsc = dict(f["witness"]["scenario"], fixed_schedule=f["witness"]["schedule"])
+            wh = run_scenarios([wsc])[0]["runs"][0]
+            wa, _ = tlc_accepts("HandoverCapA", "HandoverCapA.cfg", [{k: v for k, v in wh.items() if k != "schedule"}])
+            if wa[0] and wa[0][2] == f["clause"]:
+                rep.known_finding("F16", "a send() already past its merge of the global fields when another thread sets a new one delivers its "
+                                         "message afterwards without it")
+            else:
+                print("note: known finding F16 no longer shows on its recorded schedule (clause now %r)" % (wa[0][2] if wa[0] else None))
     # the same race with global fields set just before the first add(), and with a FULL buffer (the most recent 1000 are kept)
     full = list(range(100, 1100))
     scs = [{"kind": "handover_cap", "threads": {"L": [1, 2]}, "pre": [11, 12, 13], "dests": [1, 2], "gf": True, "max_pre": 2,
